@@ -32,3 +32,58 @@ def _(p):
         if labels != exp:
             return f"label-list-mismatch: formula {p['formula']!r} ensure_full_rank=False gives {labels}, complete Kronecker list is {exp}"
     return None
+
+
+@replay("c05_agree")
+def _(p):
+    """All entry points x outputs (incl. sparse) x materializers (incl. narwhals on pyarrow) at one concrete point."""
+    from formulaic import Formula, ModelSpec, model_matrix
+    from formulaic.materializers import FormulaMaterializer
+
+    df = mc.full_frame(p["a"], p["b"])
+    efr, formula = p["efr"], p["formula"]
+    ref = model_matrix(formula, df, ensure_full_rank=efr, output="pandas")
+    rl = list(ref.model_spec.column_names)
+    rc = numpy.asarray(ref, dtype=float).reshape((len(df), len(rl)))
+    datas = {"pandas": df}
+    try:
+        import pyarrow
+
+        datas["arrow"] = pyarrow.Table.from_pandas(df.assign(A=df["A"].astype(str).astype(object), B=df["B"].astype(str).astype(object)), preserve_index=False)
+    except Exception:
+        pass
+
+    def dense(mm, out):
+        if out == "sparse":
+            return numpy.asarray(mm.todense(), dtype=float)
+        return numpy.asarray(mm, dtype=float).reshape((len(df), -1))
+
+    for dname, data in datas.items():
+        for mat in ((None, "narwhals") if dname == "pandas" else ("narwhals",)):
+            for out in ("pandas", "numpy", "sparse"):
+                if p.get("legs") == "sparse+arrow" and not (out == "sparse" or dname == "arrow"):
+                    continue
+                for entry in (("model_matrix", "materializer") if p.get("legs") else ("model_matrix", "Formula", "ModelSpec", "materializer")):
+                    opts = dict(ensure_full_rank=efr, output=out)
+                    if mat:
+                        opts["materializer"] = mat
+                    if entry == "model_matrix":
+                        mm = model_matrix(formula, data, **opts)
+                    elif entry == "Formula":
+                        mm = Formula(formula).get_model_matrix(data, **opts)
+                    elif entry == "ModelSpec":
+                        mm = ModelSpec.from_spec(Formula(formula), **opts).get_model_matrix(data)
+                    else:
+                        m = opts.pop("materializer", None)
+                        cls = FormulaMaterializer.for_materializer(m) if m else FormulaMaterializer.for_data(data)
+                        mm = cls(data).get_model_matrix(formula, **opts)
+                    tag = f"{entry}/{out}/{mat or 'pandas'}/{dname}"
+                    l = list(mm.model_spec.column_names)
+                    if l != rl:
+                        return f"column-order-differs: {formula!r} efr={efr} {tag}: {l} vs {rl}"
+                    if out == "pandas" and list(mm.columns) != rl:
+                        return f"labels-differ-from-spec: {tag}"
+                    c = dense(mm, out)
+                    if c.shape != rc.shape or not numpy.allclose(c, rc, rtol=1e-12, atol=1e-12):
+                        return f"cells-differ: {formula!r} efr={efr} {tag} differs from model_matrix/pandas"
+    return None
